@@ -150,23 +150,35 @@ def main():
     rnd = lcg(20261001)
     defs, calls_rs, cases, failed_tr, refused, not_refused = [], [], [], [], [], []
     for fname, params, ret in fns:
-        if not (fname.startswith("t_") or fname.startswith("r_")): continue       # helpers are reached through their callers
-        t = dict(name="st_" + fname, file="tools/selftest/snippets.rs", fn=fname, kind="function", ret=ret_spec(ret))
-        body_calls = {c for c in names if c != fname and re.search(r"\b%s\s*\(" % c, src.split("pub fn " + fname)[1].split("\npub fn ")[0])}
+        helper = not (fname.startswith("t_") or fname.startswith("r_"))
+        mres = re.match(r"Result<(\w+),\s*(\w+)>$", ret)
+        try: rspec = "N + N" if mres else ret_spec(ret)
+        except ValueError:
+            if helper: continue
+            raise
+        t = dict(name="st_" + fname, file="tools/selftest/snippets.rs", fn=fname, kind="function", ret=rspec,
+                 match_patterns={"Ok": ("inl", ["u8"]), "Err": ("inr", ["u8"])})
+        mb = re.search(r"\bfn %s\s*\(" % fname, src)
+        nxt = re.search(r"\n(?:pub )?fn \w", src[mb.end():])
+        body_txt = src[mb.end():mb.end() + nxt.start()] if nxt else src[mb.end():]
+        body_calls = {c for c in names if c != fname and re.search(r"\b%s\s*\(" % c, body_txt)}
         if body_calls:
             t["opt_calls"] = {}
             for c in body_calls:
                 cret = [r for f, _, r in fns if f == c][0]
                 m = re.match(r"Option<(\w+)>$", cret)
-                t["opt_calls"][c] = ("tr_st_" + c, ("opt", m.group(1)) if m else (cret if cret in BITS else ("arr", "u8")))
+                mr = re.match(r"Result<(\w+),\s*(\w+)>$", cret)
+                t["opt_calls"][c] = ("tr_st_" + c, ("opt", m.group(1)) if m else (("sum", mr.group(1)) if mr else (cret if cret in BITS else ("arr", "u8"))))
         try:
             txt = es.function(t, src)
         except Untranslatable as e:
             if fname.startswith("r_"): refused.append((fname, str(e)))
-            else: failed_tr.append((fname, str(e)))
+            elif not helper: failed_tr.append((fname, str(e)))
             continue
         if fname.startswith("r_"):
             not_refused.append(fname); continue
+        if helper:
+            defs.insert(0, txt); continue
         defs.append(txt)
         uses_fuel = "(fuel : nat)" in txt.split(":=")[0]
         for i in range(CASES):
